@@ -11,6 +11,7 @@ import (
 	"go/constant"
 	"go/token"
 	"go/types"
+	"os"
 	"sort"
 	"strings"
 
@@ -435,8 +436,10 @@ type allocDef struct {
 type allocInfo struct {
 	alloc   *ssa.Alloc
 	escapes bool
-	keys    [][]string // every access path seen (incl. empty)
-	defs    []*allocDef
+	// captured: closures read the variable (and only read it); their reads see the flow-insensitive content
+	captured bool
+	keys     [][]string // every access path seen (incl. empty)
+	defs     []*allocDef
 	// reaching state before each instruction of interest: key -> def indices
 	in map[ssa.Instruction]map[string][]int
 	// all values ever stored (for escaping cells)
@@ -582,7 +585,11 @@ func (tm *Terms) allocInfoOf(a *ssa.Alloc) *allocInfo {
 					ai.escapes = true
 				}
 			case *ssa.MakeClosure:
-				ai.escapes = true
+				if os.Getenv("VERIF_NOROC") != "" || !readOnlyCapture(x, addr, 0) {
+					ai.escapes = true
+				} else {
+					ai.captured = true // closures only read it: the function's own reads stay flow-sensitive
+				}
 				// the closure may assign the captured variable: those values belong to the cell as well
 				if cfn, ok := x.Fn.(*ssa.Function); ok && len(path) == 0 {
 					for bi, bv := range x.Bindings {
@@ -742,6 +749,11 @@ func (tm *Terms) allocInfoOf(a *ssa.Alloc) *allocInfo {
 		for _, in := range b.Instrs {
 			if uses[in] {
 				ai.in[in] = clone(s)
+			} else if ai.captured {
+				// a call may run a closure that reads the variable: what it holds at that call
+				if _, isCall := in.(ssa.CallInstruction); isCall {
+					ai.in[in] = clone(s)
+				}
 			}
 			for _, di := range defAt[in] {
 				apply(s, di)
@@ -790,7 +802,7 @@ func (tm *Terms) readOnlyCallee(cc *ssa.CallCommon) bool {
 // ---------------------------------------------------------------------------
 // term construction
 
-const maxInlineDepth = 7
+const maxInlineDepth = 10
 
 func (tm *Terms) Of(fr *Frame, v ssa.Value) *Term {
 	if v == nil {
@@ -1242,6 +1254,13 @@ func (tm *Terms) load(fr *Frame, ld *ssa.UnOp) *Term {
 			for i, fv := range fr.Fn.FreeVars {
 				if fv == r && i < len(fr.Closure.Bindings) {
 					if al, ok := fr.Closure.Bindings[i].(*ssa.Alloc); ok {
+						// a closure called by the very function that owns the variable reads what the variable holds at
+						// that call
+						if fr.Call != nil {
+							if ci, isInstr := fr.Call.(ssa.Instruction); isInstr && ci.Parent() == al.Parent() && fr.ClosureFrame != nil && fr.ClosureFrame.Fn == al.Parent() {
+								return tm.snapshot(fr.ClosureFrame, al, path, ci)
+							}
+						}
 						return tm.snapshot(fr.ClosureFrame, al, path, ld)
 					}
 				}
@@ -1276,6 +1295,14 @@ func (tm *Terms) load(fr *Frame, ld *ssa.UnOp) *Term {
 		}
 		return t
 	}
+	if t.Op == "new" && len(path) > 0 {
+		// a freshly built object (a constructor's composite literal seen through inlining) reached through a pointer:
+		// what the literal put into a field is what a load returns only until somebody stores into that field through
+		// the same pointer
+		if ov := tm.storesThroughSamePointer(fr, ld, root, t, path); ov != nil {
+			return ov
+		}
+	}
 	for _, p := range path {
 		t = pathStep(t, p, ld)
 	}
@@ -1307,8 +1334,8 @@ func pathStep(t *Term, p string, v ssa.Value) *Term {
 // snapshot gives the contents of local variable a (sub-path path) just before instruction at.
 func (tm *Terms) snapshot(fr *Frame, a *ssa.Alloc, path []string, at ssa.Instruction) *Term {
 	ai := tm.allocInfoOf(a)
-	if ai.escapes {
-		// flow-insensitive cell: any value ever stored
+	if ai.escapes || (at != nil && at.Parent() != a.Parent()) {
+		// flow-insensitive cell: any value ever stored (also what a closure that only reads the variable sees)
 		k := fr.id + "|cell|" + fmt.Sprintf("%p", a)
 		var cell *Term
 		if t := tm.memo[k]; t != nil {
@@ -1389,6 +1416,11 @@ func (tm *Terms) snapshot(fr *Frame, a *ssa.Alloc, path []string, at ssa.Instruc
 				content = mk("upd", "", a, append([]*Term{content}, build(nil)...)...)
 			}
 			cell = mk("cell", a.Comment+"@"+fnName(a.Parent()), a, content)
+			if singleValueCell(content) {
+				// a variable that escapes only because a closure reads it and that is assigned exactly once (a captured
+				// parameter or local): wherever it is read, it is that value
+				cell = content
+			}
 			tm.memo[k] = cell
 		}
 		t := cell
@@ -1400,6 +1432,26 @@ func (tm *Terms) snapshot(fr *Frame, a *ssa.Alloc, path []string, at ssa.Instruc
 	st := ai.in[at]
 	if st == nil {
 		return mk("unknown", "no reaching state for "+a.Comment, a)
+	}
+	// a path the function itself never reads (only a closure does): the longest prefix it knows, then step down
+	known := func(p []string) bool {
+		for _, k := range ai.keys {
+			if pathKey(k) == pathKey(p) {
+				return true
+			}
+		}
+		return false
+	}
+	if !known(path) {
+		for n := len(path) - 1; n >= 0; n-- {
+			if known(path[:n]) || n == 0 {
+				t := tm.snapAt(fr, ai, st, path[:n], 0)
+				for _, p := range path[n:] {
+					t = pathStep(t, p, a)
+				}
+				return t
+			}
+		}
 	}
 	return tm.snapAt(fr, ai, st, path, 0)
 }
@@ -1775,4 +1827,144 @@ func expandBuiltElem(t *Term) *Term {
 		return es[0]
 	}
 	return &Term{Op: "phi", Args: es, V: u.V}
+}
+
+// singleValueCell: the flow-insensitive content of an escaping variable is one definite value (not a join of several
+// stores, not a record assembled from part stores, not something unresolved).
+func singleValueCell(c *Term) bool {
+	switch c.Op {
+	case "param", "field", "call", "res", "const", "elem", "lookup", "binop", "closure", "func":
+		return true
+	}
+	return false
+}
+
+// readOnlyCapture: the closure made by mc (and any closure it makes in turn) only reads the variable whose address
+// addr it captures — loads, and loads of its fields/elements — so the only writer remains the enclosing function.
+func readOnlyCapture(mc *ssa.MakeClosure, addr ssa.Value, depth int) bool {
+	cfn, ok := mc.Fn.(*ssa.Function)
+	if !ok || depth > 3 {
+		return false
+	}
+	var readsOnly func(v ssa.Value, d int) bool
+	readsOnly = func(v ssa.Value, d int) bool {
+		refs := v.Referrers()
+		if refs == nil {
+			return true
+		}
+		for _, r := range *refs {
+			switch x := r.(type) {
+			case *ssa.UnOp:
+				if x.Op != token.MUL {
+					return false
+				}
+			case *ssa.FieldAddr:
+				if !readsOnly(x, d) {
+					return false
+				}
+			case *ssa.IndexAddr:
+				if x.X != v || !readsOnly(x, d) {
+					return false
+				}
+			case *ssa.MakeClosure:
+				if !readOnlyCapture(x, v, d+1) {
+					return false
+				}
+			case *ssa.DebugRef:
+			default:
+				return false
+			}
+		}
+		return true
+	}
+	for bi, bv := range mc.Bindings {
+		if bv != addr {
+			continue
+		}
+		if bi >= len(cfn.FreeVars) || !readsOnly(cfn.FreeVars[bi], depth) {
+			return false
+		}
+	}
+	return true
+}
+
+// storesThroughSamePointer: the value of the load `ld` of path `path` under pointer `root` (term rt, a fresh object),
+// taking into account the stores of the same function into that path (or a prefix of it) through any SSA value that
+// denotes the same pointer. nil when there is no such store.
+func (tm *Terms) storesThroughSamePointer(fr *Frame, ld *ssa.UnOp, root ssa.Value, rt *Term, path []string) *Term {
+	fn := ld.Parent()
+	type hit struct {
+		st   *ssa.Store
+		rest []string
+	}
+	var hits []hit
+	for _, b := range fn.Blocks {
+		for _, in := range b.Instrs {
+			st, ok := in.(*ssa.Store)
+			if !ok {
+				continue
+			}
+			r2, p2 := addrRoot(st.Addr)
+			if len(p2) == 0 || len(p2) > len(path) || !hasPrefix(path, p2) {
+				continue
+			}
+			if _, isAlloc := r2.(*ssa.Alloc); isAlloc {
+				continue
+			}
+			if r2 != root && tm.Of(fr, r2).Key() != rt.Key() {
+				continue
+			}
+			hits = append(hits, hit{st, path[len(p2):]})
+		}
+	}
+	if len(hits) == 0 {
+		return nil
+	}
+	val := func(h hit) *Term {
+		t := tm.OperandAt(fr, h.st, h.st.Val)
+		for _, p := range h.rest {
+			t = pathStep(t, p, ld)
+		}
+		return t
+	}
+	// the last store that is certain to have happened
+	var dom *hit
+	for i := range hits {
+		if instrDominates(hits[i].st, ld) && (dom == nil || instrDominates(dom.st, hits[i].st)) {
+			dom = &hits[i]
+		}
+	}
+	var alts []*Term
+	if dom != nil {
+		alts = append(alts, val(*dom))
+	} else {
+		t := rt
+		for _, p := range path {
+			t = pathStep(t, p, ld)
+		}
+		alts = append(alts, t)
+	}
+	for i := range hits {
+		if dom != nil && (hits[i].st == dom.st || instrDominates(hits[i].st, dom.st)) {
+			continue // overwritten by the dominating store
+		}
+		if instrDominates(ld, hits[i].st) && !sameLoop(ld, hits[i].st) {
+			continue // happens only after the load
+		}
+		alts = append(alts, val(hits[i]))
+	}
+	return mkPhi(ld, alts...)
+}
+
+func sameLoop(a, b ssa.Instruction) bool {
+	fi := fnInfo(a.Parent())
+	la, lb := fi.LoopOf[a.Block()], fi.LoopOf[b.Block()]
+	for x := la; x != nil; x = x.Parent {
+		for y := lb; y != nil; y = y.Parent {
+			if x == y {
+				return true
+			}
+		}
+	}
+	return false
 }
